@@ -41,7 +41,7 @@ CHECKS = [
        "DESIGN.md 4 C09"),
     _c("C05", E1,
        "symbolic execution (CrossHair+z3) of the stub printer, parser and verifier over generated stubs in the emitted dialect; parse/print fixed point plus a spec oracle for what was read",
-       "Bounded solver-certified exhaustive check for generated stubs: every bounded function signature, class shape and type form parses, verifies, matches the spec it was generated from, and is a fixed point of print-then-parse; canonical_pyi is idempotent. Stubs emitted for analysed programs are NOT covered (need the VM).",
+       "Bounded solver-certified exhaustive check for generated stubs: every bounded function signature, class shape and type form parses, verifies, matches the spec it was generated from, and is a fixed point of print-then-parse; canonical_pyi is idempotent; the text printed from ASTs resolved by the real AdjustTypeParameters/AdjustSelf visitors (templates, self/cls types, classes nested in generic classes) is a fixed point too. Stubs emitted for analysed programs are NOT covered (need the VM).",
        "Trusted: CPython ast.parse on concrete text, CrossHair, z3. Outside: program-derived stubs, ParamSpec/Concatenate, names needing escaping.",
        "DESIGN.md 4 C05"),
     _c("C16", E1,
